@@ -3,6 +3,36 @@ use crate::util::{Rng, Q, T};
 use sophia_api::term::{BnodeId, IriRef, LanguageTag, SimpleTerm, Term, TermKind, VarName};
 
 pub const XSD: &str = "http://www.w3.org/2001/XMLSchema#";
+
+/// IRIs that differ from a well-known vocabulary term by little: same namespace and a local name that
+/// has the well-known one as a proper suffix / prefix, differs in case, or is empty; same local name in
+/// another namespace. Code that recognises `xsd:string`, `rdf:langString`, `rdf:first` … by anything
+/// weaker than full equality treats one of these as the well-known term.
+pub const NEAR_MISS_DATATYPES: &[&str] = &[
+    "http://www.w3.org/2001/XMLSchema#substring",
+    "http://www.w3.org/2001/XMLSchema#my-string",
+    "http://www.w3.org/2001/XMLSchema#string2",
+    "http://www.w3.org/2001/XMLSchema#strin",
+    "http://www.w3.org/2001/XMLSchema#String",
+    "http://www.w3.org/2001/XMLSchema#",
+    "http://www.w3.org/2001/XMLSchema",
+    "http://ex.org/XMLSchema#string",
+    "http://www.w3.org/1999/02/22-rdf-syntax-ns#xlangString",
+    "http://www.w3.org/1999/02/22-rdf-syntax-ns#langStrin",
+    "http://www.w3.org/2001/XMLSchema#xinteger",
+    "http://www.w3.org/2001/XMLSchema#xdecimal",
+    "http://www.w3.org/2001/XMLSchema#xdouble",
+    "http://www.w3.org/2001/XMLSchema#xboolean",
+];
+pub const NEAR_MISS_VOCAB: &[&str] = &[
+    "http://www.w3.org/1999/02/22-rdf-syntax-ns#xtype",
+    "http://www.w3.org/1999/02/22-rdf-syntax-ns#typ",
+    "http://www.w3.org/1999/02/22-rdf-syntax-ns#xfirst",
+    "http://www.w3.org/1999/02/22-rdf-syntax-ns#xrest",
+    "http://www.w3.org/1999/02/22-rdf-syntax-ns#xnil",
+    "http://www.w3.org/1999/02/22-rdf-syntax-ns#",
+    "http://ex.org/22-rdf-syntax-ns#nil",
+];
 pub const RDF: &str = "http://www.w3.org/1999/02/22-rdf-syntax-ns#";
 
 /// build an owned `SimpleTerm` (no validation: the generator only produces valid components,
@@ -76,6 +106,8 @@ impl Default for TermGen {
                 "http://www.w3.org/2001/XMLSchema#string",
                 "http://www.w3.org/2001/XMLSchema#integer",
                 "http://ex.org/dt",
+                "http://www.w3.org/2001/XMLSchema#substring",
+                "http://www.w3.org/2001/XMLSchema#",
             ]),
             tags: s(&["en", "EN", "en-GB", "en-gb", "fr"]),
             max_depth: 2,
